@@ -237,6 +237,11 @@ class Response:
         elif self.status is not None:
             raise AssertionError("Response headers already set!")
 
+        # the status goes verbatim into the status line: same character
+        # set as a field value, in particular no CR, LF or NUL
+        if isinstance(status, str) and not HEADER_VALUE_RE.fullmatch(status):
+            raise InvalidHeader('%r' % status)
+
         self.status = status
 
         # get the status code from the response here so we can use it to check
